@@ -151,12 +151,26 @@ func runC12(c *Ctx) {
 	ob = c.Obl("R2", "common/probdist:(*WeightedDist).Sample#shape", "Sample returns minValue + values[idx] where idx is the rolled index i = Intn(len(values)) or alias[i] (never the index itself, never another table)")
 	t := p.newTermer()
 	bad = ""
+	// every return is minValue + values[IDX] with IDX the rolled index I, alias[I], or either of them
+	// (one merged return or one return per coin side); both sides must occur
+	const tI = "Intn(len(<WeightedDist>.values))"
+	const tA = "<WeightedDist>.alias[" + tI + "]"
+	seenI, seenA := false, false
 	for _, r := range returnsOf(sample) {
 		got := t.Term(r.Results[0])
-		want := "(<WeightedDist>.minValue+<WeightedDist>.values[phi(Intn(len(<WeightedDist>.values))|<WeightedDist>.alias[Intn(len(<WeightedDist>.values))])])"
-		if !termEq(got, want) {
+		switch {
+		case termEq(got, "(<WeightedDist>.minValue+<WeightedDist>.values[phi("+tI+"|"+tA+")])"), termEq(got, "(<WeightedDist>.minValue+<WeightedDist>.values[phi("+tA+"|"+tI+")])"):
+			seenI, seenA = true, true
+		case termEq(got, "(<WeightedDist>.minValue+<WeightedDist>.values["+tI+"])"):
+			seenI = true
+		case termEq(got, "(<WeightedDist>.minValue+<WeightedDist>.values["+tA+"])"):
+			seenA = true
+		default:
 			bad = "Sample returns " + got
 		}
+	}
+	if bad == "" && !(seenI && seenA) {
+		bad = "Sample never returns the value at the rolled index / at its alias"
 	}
 	if len(t.errs) > 0 {
 		bad = strings.Join(t.errs, "; ")
@@ -258,10 +272,24 @@ func runC12(c *Ctx) {
 			}
 		}
 		// exactness of the range: r = Intn((max+1)-min) + min
-		tt := p.newTermer()
+		lc := p.newLin()
 		for _, r := range returnsOf(ir) {
-			if got := tt.Term(r.Results[0]); !termEq(got, "(Intn((($1+1)-$0))+$0)") {
-				bad = "IntRange computes " + got + ", expected Intn((max+1)-min)+min (every value of [min,max] reachable)"
+			l := lc.Of(r.Results[0])
+			// result = Intn(n) + min with n = max - min + 1
+			okShape := false
+			for name, co := range l.T {
+				ic, _ := callOf(lc.rep[name])
+				if co == 1 && ic != nil && (p.CalleeID(ic.Common()) == "(*math/rand.Rand).Intn" || p.CalleeID(ic.Common()) == M("$M/common/csrand.Intn")) {
+					rest := l.Sub(Lin{T: map[string]int64{name: 1}})
+					n := lc.Of(ic.Common().Args[len(ic.Common().Args)-1])
+					want := lc.Of(ir.Params[1]).Sub(lc.Of(ir.Params[0])).Add(linConst(1))
+					if rest.Equal(lc.Of(ir.Params[0])) && n.Equal(want) {
+						okShape = true
+					}
+				}
+			}
+			if !okShape {
+				bad = "IntRange computes " + l.String() + ", expected Intn((max+1)-min)+min (every value of [min,max] reachable)"
 			}
 		}
 		if bad != "" {
@@ -434,6 +462,19 @@ func c12Stateless(c *Ctx, p *Prog, reset *ssa.Function, reach map[*ssa.Function]
 				in = map[string]bool{}
 			}
 			for _, ins := range blk.Instrs {
+				// Reset's own accesses (a generation step written out, or inlined, in Reset itself)
+				if st, isSt := ins.(*ssa.Store); isSt {
+					if k, ok := fieldAddrKeyDirect(st.Addr); ok && k.Type == tWD {
+						in[k.Field] = true
+					}
+					continue
+				}
+				if u, isLd := ins.(*ssa.UnOp); isLd && u.Op == token.MUL {
+					if k, ok := fieldAddrKeyDirect(u.X); ok && k.Type == tWD && k.Field != "Mutex" && !config[k.Field] && !in[k.Field] && iter == 3 && bad == "" {
+						bad = "Reset reads field " + k.Field + " at " + p.InstrPos(u) + " before this Reset has written it"
+					}
+					continue
+				}
 				call, ok := ins.(ssa.CallInstruction)
 				if !ok {
 					continue
@@ -461,18 +502,8 @@ func c12Stateless(c *Ctx, p *Prog, reset *ssa.Function, reach map[*ssa.Function]
 			}
 		}
 	}
-	// direct field reads in Reset itself
-	allInstrs(reset, func(in ssa.Instruction) {
-		u, ok := in.(*ssa.UnOp)
-		if !ok || u.Op != token.MUL {
-			return
-		}
-		if k, ok := fieldAddrKeyDirect(u.X); ok && k.Type == tWD && k.Field != "Mutex" && !config[k.Field] {
-			bad = "Reset reads field " + k.Field + " at " + p.InstrPos(u)
-		}
-	})
-	if len(calls) < 3 && bad == "" {
-		bad = fmt.Sprintf("only %d generation steps found in Reset", len(calls))
+	if len(written) < 4 && bad == "" {
+		bad = fmt.Sprintf("Reset produces only %v", keysOf(written))
 	}
 	if bad != "" {
 		ob.Violate("%s", bad)
